@@ -40,6 +40,14 @@ Definition effective (A : area) (g : regs) : res regs :=
   | Some (i0, k, i1) => bind (f_get g (Top i0) k) (fun v => Ok (if v =? 0 then set_regs g (drop_nth i1 (g_regs g)) else g))
   end.
 
+Fixpoint traverse_res {A B} (f : A -> res B) (l : list A) : res (list B) :=
+  match l with
+  | [] => Ok []
+  | x :: t => bind (f x) (fun y => bind (traverse_res f t) (fun r => Ok (y :: r)))
+  end.
+
+Definition dflt_reg : reg := mkReg (mkSreg [] 0 0 false [] false false 0 [] 0) false [].
+
 (* ------------------------------------------------------------------ export *)
 Definition SEAL : list N := [83; 69; 65; 76]%N.
 
@@ -52,6 +60,12 @@ Definition area_export (A : area) (g : regs) (add_seal : bool) : res (list N) :=
                 | _, _ => data
                 end in
     if zlen data =? a_size A then Ok data else Err 1%N)
+  else if a_kind A =? 8 then
+    (* the fuse map has no binary form (every fuse register sits at offset 0): the observable is the raw value of every
+       top-level fuse register, width/8 bytes big endian each, in register order *)
+    bind (traverse_res (fun i => bind (t_get g (Top i) true) (fun v =>
+            Ok (be_enc (Z.to_nat (s_width (r_base (nth i (g_regs g) dflt_reg)) / 8)) (Z.to_N v))))
+          (seq 0 (length (g_regs g)))) (fun l => Ok (concat l))
   else
     (* SegmentBase.export / MemoryConfig.export / Registers.export *)
     bind (effective A g) (fun g' => export_with g' 0 0%N).
@@ -164,7 +178,7 @@ Definition area_parse (A : area) (g0 : regs) (bin : list N) : res regs :=
   else if k =? 4 then bind (parse g0 bin) (check_tag A)
   else if k =? 7 then
     (* the header selects the memory type and the block type of the object that is built *)
-    bind (parse g0 (firstn (Z.to_nat (s_offset (r_base (nth (a_hdr A) (g_regs g0) (mkReg (mkSreg [] 0 0 false [] false false 0 [] 0) false []))))) bin))
+    bind (parse g0 (firstn (Z.to_nat (s_offset (r_base (nth (a_hdr A) (g_regs g0) dflt_reg)))) bin))
          (fun gh =>
     bind (hdr_get gh CFG_BLOCK_TYPE) (fun bt => bind (hdr_get gh MEMORY_INTERFACE) (fun mi =>
     bind (hdr_get g0 CFG_BLOCK_TYPE) (fun bt0 => bind (hdr_get g0 MEMORY_INTERFACE) (fun mi0 =>
@@ -200,39 +214,77 @@ Definition ow_count (A : area) (g : regs) : res Z :=
                              Ok (if eqb_list s USER_DEFINED then n else 1)))
   else Err 1%N.
 
-Fixpoint traverse_res {A B} (f : A -> res B) (l : list A) : res (list B) :=
-  match l with
-  | [] => Ok []
-  | x :: t => bind (f x) (fun y => bind (traverse_res f t) (fun r => Ok (y :: r)))
-  end.
-
 Definition option_words (A : area) (g : regs) : res (list Z) :=
   bind (ow_count A g) (fun c =>
   traverse_res (fun i => t_get g (Top i) false) (firstn (Z.to_nat c) (visible_tops (g_regs g) 0))).
 
-(* the settings part of <Area>.get_config() *)
-Definition area_get_config (A : area) (g : regs) : res (list (nat * cout * list (nat * value))) :=
+(* ---- python dictionaries: ret[name] = value keeps the position of the first insertion and the value of the last *)
+Fixpoint dict_set {V} (d : list (list N * V)) (k : list N) (v : V) : list (list N * V) :=
+  match d with
+  | [] => [(k, v)]
+  | kv :: t => if eqb_list (fst kv) k then (fst kv, v) :: t else kv :: dict_set t k v
+  end.
+Definition dict_of {V} (l : list (list N * V)) : list (list N * V) := fold_left (fun d kv => dict_set d (fst kv) (snd kv)) l [].
+
+(* the value of one register in the configuration dictionary *)
+Inductive cpay := PHex (s : list N) | PFields (l : list (list N * list N)).
+
+Definition cout_entry (c : cout) : list N * cpay :=
+  match c with
+  | CoHex n s => (n, PHex s)
+  | CoFields n l => (n, PFields (dict_of l))
+  end.
+
+(* the settings part of <Area>.get_config(): a dictionary keyed by register name *)
+Definition area_get_config (A : area) (g : regs) : res (list (list N * cpay)) :=
   if a_kind A =? 9 then
     bind (get_cfg g false) (fun all =>
     bind (ow_count A g) (fun c =>
     let keep := firstn (Z.to_nat c) (visible_tops (g_regs g) 0) in
-    Ok (filter (fun x => existsb (Nat.eqb (fst (fst x))) keep) all)))
-  else bind (effective A g) (fun g' => get_cfg g' false).
+    let d := dict_of (map (fun x => cout_entry (snd (fst x))) all) in
+    (* settings[reg.name] = settings_all[reg.name] for the first option words *)
+    Ok (dict_of (flat_map (fun i => match nth_error (g_regs g) i with
+                                    | Some r => filter (fun kv => eqb_list (fst kv) (s_name (r_base r))) d
+                                    | None => []
+                                    end) keep))))
+  else bind (effective A g) (fun g' => bind (get_cfg g' false) (fun all =>
+       Ok (dict_of (map (fun x => cout_entry (snd (fst x))) all)))).
 
-(* the configuration as the loader consumes it; register indices of the merged XMCD view are mapped back *)
-Definition undrop (A : area) (g : regs) (i : nat) : res nat :=
-  match a_opt A with
-  | None => Ok i
-  | Some (i0, k, i1) => bind (f_get g (Top i0) k) (fun v => Ok (if (v =? 0) && Nat.leb i1 i then S i else i))
+(* Registers.find_reg(name, include_group_regs=True) on names *)
+Fixpoint find_sub (subs : list sreg) (name : list N) (j : nat) : option nat :=
+  match subs with
+  | [] => None
+  | x :: t => if eqb_list (s_name x) name then Some j else find_sub t name (S j)
+  end.
+Fixpoint find_reg_name (l : list reg) (name : list N) (i : nat) : option ref :=
+  match l with
+  | [] => None
+  | r :: t => if eqb_list (s_name (r_base r)) name then Some (Top i)
+              else match find_sub (r_subs r) name 0 with
+                   | Some j => Some (Sub i j)
+                   | None => find_reg_name t name (S i)
+                   end
   end.
 
-Definition cfg_entries (A : area) (g : regs) (c : list (nat * cout * list (nat * value))) : res (list centry_a) :=
-  traverse_res (fun x =>
-    bind (undrop A g (fst (fst x))) (fun i =>
-    Ok (match snd (fst x) with
-        | CoHex _ s => mkCe (Top i) (CVal (VStr s)) 0 true
-        | CoFields _ _ => mkCe (Top i) (CFields (snd x)) 3 true
-        end))) c.
+(* the dictionary as the loader of a fresh object g0 consumes it: names are looked up again *)
+Definition cfg_entries (g0 : regs) (c : list (list N * cpay)) : res (list centry_a) :=
+  traverse_res (fun kv =>
+    match find_reg_name (g_regs g0) (fst kv) 0 with
+    | None => Err 1%N
+    | Some t =>
+        match snd kv with
+        | PHex s => Ok (mkCe t (CVal (VStr s)) 0 true)
+        | PFields l =>
+            match t_sreg g0 t with
+            | None => Err 1%N
+            | Some sr =>
+                bind (traverse_res (fun fv => match find_field (s_fields sr) (fst fv) 0 with
+                                              | Some k => Ok (k, VStr (snd fv))
+                                              | None => Err 1%N
+                                              end) l) (fun fl => Ok (mkCe t (CFields fl) 3 true))
+            end
+        end
+    end) c.
 
 (* ------------------------------------------------------------------ XMCD extras *)
 Definition xmcd_crc (A : area) (g : regs) : res (list N) :=
@@ -280,10 +332,42 @@ Definition snap_raw (g : regs) : value :=
            map (fun j => vz (t_get g (Sub (fst ir) j) true)) (seq 0 (length (r_subs (snd ir))))))
     (combine (seq 0 (length (g_regs g))) (g_regs g))).
 
-Definition vcfg (r : res (list (nat * cout * list (nat * value)))) : value :=
-  vres (fun c => VList (map (fun x => cout_value (snd (fst x))) c)) r.
+Definition cpay_value (kv : list N * cpay) : value :=
+  match snd kv with
+  | PHex s => VList [VStr (fst kv); VInt 0; VStr s]
+  | PFields l => VList [VStr (fst kv); VInt 1; VList (map (fun p => VList [VStr (fst p); VStr (snd p)]) l)]
+  end.
+Definition vcfg (r : res (list (list N * cpay))) : value := vres (fun c => VList (map cpay_value c)) r.
 
 Definition vbytes (r : res (list N)) : value := vres VBytes r.
+
+(* ------------------------------------------------------------------ compact wire format
+   strings and byte strings travel as numbers (Coq reads and prints long lists of small numerals slowly):
+     VList [VInt (-1); VInt len; VInt n]  a string of len code points, n in base 2^21, most significant first
+     VList [VInt (-2); VInt len; VInt n]  len bytes, n big endian *)
+Fixpoint digits_le (base : N) (len : nat) (n : N) : list N :=
+  match len with
+  | O => []
+  | S k => (n mod base)%N :: digits_le base k (n / base)%N
+  end.
+Definition undigits_be (base : N) (l : list N) : N := fold_left (fun acc d => (acc * base + d)%N) l 0%N.
+Definition CP : N := 2097152%N.
+
+Fixpoint unpack (v : value) {struct v} : value :=
+  match v with
+  | VList [VInt (-1); VInt len; VInt n] => VStr (rev (digits_le CP (Z.to_nat len) (Z.to_N n)))
+  | VList [VInt (-2); VInt len; VInt n] => VBytes (be_enc (Z.to_nat len) (Z.to_N n))
+  | VList l => VList ((fix go (l : list value) : list value := match l with [] => [] | x :: t => unpack x :: go t end) l)
+  | _ => v
+  end.
+
+Fixpoint pack (v : value) {struct v} : value :=
+  match v with
+  | VStr s => VList [VInt (-1); vnat (length s); VInt (Z.of_N (undigits_be CP s))]
+  | VBytes b => VList [VInt (-2); vnat (length b); VInt (Z.of_N (be_dec b))]
+  | VList l => VList ((fix go (l : list value) : list value := match l with [] => [] | x :: t => pack x :: go t end) l)
+  | _ => v
+  end.
 
 (* ------------------------------------------------------------------ decoding of harness input *)
 Definition dec_ce (v : value) : option centry_a :=
@@ -305,19 +389,20 @@ Definition dec_custom (v : value) : option (nat * value) :=
   match v with VList [VInt i; x] => Some (Z.to_nat i, x) | _ => None end.
 
 Definition dflt_area : area := mkArea 0 (mkRegs false []) 0 false 0%N [] None None None 0 0%nat None.
+Definition E_NA : N := 97%N.        (* the area has no such operation *)
 
-(* run_case 1 [area index; configuration; VInt seal?; VBytes rotkh]:
-     load_from_config -> [raw values; export; parse(export) ok; export of the parsed object; its raw values;
+(* run_area A 1 [configuration; VInt seal?; VBytes rotkh]:
+     load_from_config -> [(); raw values; export; parse(export) ok; export of the parsed object; its raw values;
                           get_config; export of load(get_config); its raw values; option words (memcfg);
                           option words after the configuration round trip; sealed export; export with ROTKH; XMCD CRC]
-   run_case 2 [area index; binary]: the area's parser on an arbitrary binary
-     -> [parse ok; export; raw values; get_config; export of load(get_config)]
-   run_case 3 [tz index; customisations]: [export; words parsed back; export of from_binary(export)] *)
-Definition run_case (fn : Z) (args : list value) : value :=
+   run_area A 2 [binary]: the area's parser on an arbitrary binary
+     -> [(); export; raw values; get_config; export of load(get_config)]
+   (inputs and outputs in the compact wire format) *)
+Definition run_area_raw (A : area) (fn : Z) (args : list value) : value :=
+  let g0 := a_regs A in
+  let roundtrip (g : regs) := bind (area_get_config A g) (fun c => bind (cfg_entries g0 c) (fun ce => area_load A g0 ce)) in
   match fn, args with
-  | 1, [VInt ai; VList cfg; VInt seal; VBytes rotkh] =>
-      let A := nth (Z.to_nat ai) all_areas dflt_area in
-      let g0 := a_regs A in
+  | 1, [VList cfg; VInt seal; VBytes rotkh] =>
       match traverse dec_ce cfg with
       | None => VErr E_BADCASE
       | Some cfg =>
@@ -325,12 +410,11 @@ Definition run_case (fn : Z) (args : list value) : value :=
           | Err k => VList [VErr k]
           | Ok g =>
               let e1 := area_export A g false in
-              let p := bind e1 (fun b => area_parse A g0 b) in
-              let c := area_get_config A g in
-              let g3 := bind c (fun c => bind (cfg_entries A g c) (fun ce => area_load A g0 ce)) in
+              let p := if a_kind A =? 8 then Err E_NA else bind e1 (fun b => area_parse A g0 b) in
+              let g3 := roundtrip g in
               VList [VList []; snap_raw g; vbytes e1;
                      vres (fun _ => VList []) p; vbytes (bind p (fun g2 => area_export A g2 false)); vres snap_raw p;
-                     vcfg c; vbytes (bind g3 (fun g3 => area_export A g3 false)); vres snap_raw g3;
+                     vcfg (area_get_config A g); vbytes (bind g3 (fun g3 => area_export A g3 false)); vres snap_raw g3;
                      (if a_kind A =? 9 then vres (fun l => VList (map VInt l)) (option_words A g) else VList []);
                      (if a_kind A =? 9 then vres (fun l => VList (map VInt l)) (bind g3 (option_words A)) else VList []);
                      (if zb seal then vbytes (area_export A g true) else VList []);
@@ -338,24 +422,39 @@ Definition run_case (fn : Z) (args : list value) : value :=
                      (if a_kind A =? 7 then vbytes (xmcd_crc A g) else VList [])]
           end
       end
-  | 2, [VInt ai; VBytes bin] =>
-      let A := nth (Z.to_nat ai) all_areas dflt_area in
-      let g0 := a_regs A in
+  | 2, [VBytes bin] =>
       match area_parse A g0 bin with
       | Err k => VList [VErr k]
       | Ok g =>
-          let c := area_get_config A g in
-          let g3 := bind c (fun c => bind (cfg_entries A g c) (fun ce => area_load A g0 ce)) in
-          VList [VList []; vbytes (area_export A g false); snap_raw g; vcfg c; vbytes (bind g3 (fun g3 => area_export A g3 false))]
+          let g3 := roundtrip g in
+          VList [VList []; vbytes (area_export A g false); snap_raw g; vcfg (area_get_config A g);
+                 vbytes (bind g3 (fun g3 => area_export A g3 false))]
       end
-  | 3, [VInt ti; VList customs] =>
-      let P := nth (Z.to_nat ti) all_tz [] in
+  | _, _ => VErr E_BADCASE
+  end.
+
+Definition run_area (A : area) (fn : Z) (args : list value) : value :=
+  pack (run_area_raw A fn (map unpack args)).
+
+(* run_tz P [customisations]: [export; words parsed back; export of from_binary(export)] *)
+Definition run_tz (P : list (list N * list N)) (args : list value) : value :=
+  match map unpack args with
+  | [VList customs] =>
       match traverse dec_custom customs with
       | None => VErr E_BADCASE
       | Some cu =>
           let e1 := tz_export P cu in
           let ws := bind e1 (tz_parse P) in
-          VList [vbytes e1; vres (fun l => VList (map VInt l)) ws; vbytes (bind ws (fun l => tz_export P (tz_customs_of l)))]
+          pack (VList [vbytes e1; vres (fun l => VList (map VInt l)) ws; vbytes (bind ws (fun l => tz_export P (tz_customs_of l)))])
       end
+  | _ => VErr E_BADCASE
+  end.
+
+(* the common entry point: the first argument is the index of the area (fn 1, 2) or of the preset table (fn 3).
+   The check refers to the constants area_k / tz_k directly (evaluating the whole database for one case is slow). *)
+Definition run_case (fn : Z) (args : list value) : value :=
+  match fn, args with
+  | 3, VInt ti :: rest => run_tz (nth (Z.to_nat ti) all_tz []) rest
+  | _, VInt ai :: rest => run_area (nth (Z.to_nat ai) all_areas dflt_area) fn rest
   | _, _ => VErr E_BADCASE
   end.
